@@ -2,7 +2,13 @@
 
 package main
 
-import "strings"
+import (
+	"bytes"
+	"fmt"
+	"os"
+	"os/exec"
+	"strings"
+)
 
 // C05 (CLI) — `evy run` on an invalid program reports on stderr with a
 // non-zero status and performs none of the program's effects.
@@ -38,6 +44,30 @@ func zzRunCLI(f func()) (code int) {
 	return code
 }
 
+// zzNativeCLI (native replay only): the real evy binary built from /repo's
+// working tree runs with the given arguments; os.Exit cannot be intercepted in
+// a native test, a separate process can simply be waited for.
+func zzNativeCLI(args ...string) (stdout, stderr string, code int, ok bool) {
+	bin := os.Getenv("VERIF_EVY_BIN")
+	if bin == "" {
+		fmt.Println("ZZNATIVE-UNSUPPORTED: VERIF_EVY_BIN not set")
+		return "", "", 0, false
+	}
+	cmd := exec.Command(bin, args...)
+	var o, e bytes.Buffer
+	cmd.Stdout, cmd.Stderr = &o, &e
+	cmd.Stdin = strings.NewReader("")
+	err := cmd.Run()
+	code = -1
+	if err != nil {
+		code = 1
+		if ee, isExit := err.(*exec.ExitError); isExit {
+			code = ee.ExitCode()
+		}
+	}
+	return o.String(), e.String(), code, true
+}
+
 func ZZC05CLI() {
 	k := zzChoice("prog", len(zzC05Broken)+1)
 	svg := zzChoice("svg", 2) == 1
@@ -53,8 +83,25 @@ func ZZC05CLI() {
 		c.SVGOut = svgPath
 	}
 	var err error
-	code := zzRunCLI(func() { err = c.Run() })
-	out, errOut := zzStdout(), zzStderr()
+	var code int
+	var out, errOut string
+	if zzSymbolic() {
+		code = zzRunCLI(func() { err = c.Run() })
+		out, errOut = zzStdout(), zzStderr()
+	} else {
+		args := []string{"run"}
+		if svg {
+			args = append(args, "--svg-out", svgPath)
+		}
+		var ok bool
+		out, errOut, code, ok = zzNativeCLI(append(args, path)...)
+		if !ok {
+			return
+		}
+		if code == -1 && errOut != "" {
+			err = fmt.Errorf("%s", errOut)
+		}
+	}
 	_, _, svgExists := zzFSGet(svgPath)
 	if k == len(zzC05Broken) {
 		zzAssert(err == nil && code == -1, "C05 cli: a valid program runs and exits normally")
